@@ -92,7 +92,7 @@ CHECKS = {"C05": c05}
 
 def c11(tier, seed, replay_path=None):
     binary = fc.build()
-    kinds = {"events", "ingestion-blocked"}
+    kinds = {"events", "ingestion-blocked", "sync-notify"}
     env = {"VERIF_NOTIFY": "1"}
     if replay_path:
         payload = json.load(open(replay_path))
@@ -145,6 +145,17 @@ def c11(tier, seed, replay_path=None):
                     if i % (6 if tier == "quick" else 3) == 0:
                         fo.write(line)
             aggs.append(fc.replay(binary, sub, seed, level=0, extra_env=dict(env, VERIF_WSREAL="1"), nproc=8))
+    # the whole system: headers delivered by scripted P2P nodes to the real server end as exactly one ADD event each
+    import checks_p2p
+    sagg, sr_, sn = checks_p2p.notify_run(tier, seed)
+    if sagg["crashed"]:
+        raise c.Infra("sync rig failed: %s" % json.dumps(sagg["crashed"])[:1500])
+    if sagg["stats"].get("notify-checked", 0) == 0:
+        raise c.Infra("vacuous system-level notification run: %s" % dict(sagg["stats"]))
+    sagg["mismatches"] = [m for m in sagg["mismatches"] if m["kind"] == "sync-notify"]
+    runs.append(sr_)
+    gen_counts["p2p"] = {"behaviours": sn, "compared": sagg["stats"].get("notify-checked", 0)}
+    aggs.append(sagg)
     agg = merge(aggs)
     st = agg["stats"]
     if st.get("events-expected", 0) == 0 or st.get("res:duplicate", 0) == 0 or st.get("res:forbidden", 0) == 0 or st.get("fault:err", 0) == 0:
